@@ -14,6 +14,7 @@
    the sums of the block sizes they span; no overflow panic when the total size fits in u64.
    Partial: that flush/reopen/replay move these nodes to and from storage unchanged is covered by the
    reference-tree oracle of tools/c05.py (raw tree/oplog bytes, proofs) and by the C06 round-trip theorems. *)
+From HC Require Import Core ClearRefine Unified1 ProofContent.
 From HC Require Import Core FlatTreeFacts TreeRef OffsetFacts Refine ClearRefine Unified1 Corollaries.
 From HC Require Import Base Codec Crypto Storage Bitfield Oplog Merkle SrcConsts ConstTie.
 From HC Require Import Base NMap Codec CodecFacts Crypto FlatTree Merkle Core FlatTreeFacts TreeRef.
@@ -112,6 +113,160 @@ Theorem C05_tree_is_reference_in_every_state :
           required_node (c_tree c) (d_tree d) (ft_index (N.of_nat dd) o) = Ok (ref_node cr bs dd o)).
 Proof. exact tree_is_reference_everywhere. Qed.
 
+Theorem C05_served_proof_is_the_reference_tree :
+  forall (cr : crypto) (kp : keypair) (sk : bytes),
+         OplogFacts.crc_ok cr ->
+         (forall x : bytes, Datatypes.length (cr_hash cr x) = 32%nat) ->
+         (forall x : bytes, all_zero (cr_hash cr x) = false) ->
+         (forall x : bytes, bytes_ok (cr_hash cr x) = true) ->
+         (forall k m : bytes, Datatypes.length (cr_sign cr k m) = 64%nat) ->
+         (forall k m : bytes, bytes_ok (cr_sign cr k m) = true) ->
+         OplogFacts.keypair_ok kp = true ->
+         kp_secret kp = Some sk ->
+         forall (c : core) (d : disk) (bs : list bytes) (cl : N -> bool) (j : list sop) 
+           (ev : list event) (block hash : option req_block) (seek : option req_seek)
+           (upgrade : option req_upgrade) (c' : core) (w' : world) (pf : proof),
+         wreach cr kp c d bs cl ->
+         core_create_proof block hash seek upgrade c {| w_disk := d; w_journal := j; w_events := ev |} =
+         (c', w', Ok (Some pf)) ->
+         let n := N.of_nat (Datatypes.length bs) in
+         (forall x : node, In x (proof_nodes pf) -> x = ref_at cr bs (n_index x) /\ refnode cr bs n x) /\
+         p_fork pf = 0 /\
+         (forall b : data_block,
+          p_block pf = Some b ->
+          held n cl (db_index b) = true /\
+          db_index b < n /\
+          db_value b = nth (N.to_nat (db_index b)) bs [] /\
+          (exists rb : req_block, block = Some rb /\ db_index b = rb_index rb)) /\
+         (block = None -> p_block pf = None) /\
+         c' = c /\ w' = {| w_disk := d; w_journal := j; w_events := ev |}.
+Proof. exact C05_served_proof_is_the_reference_tree. Qed.
+
+Theorem C05_served_upgrade_is_signed :
+  forall (cr : crypto) (kp : keypair) (sk : bytes),
+         OplogFacts.crc_ok cr ->
+         (forall x : bytes, Datatypes.length (cr_hash cr x) = 32%nat) ->
+         (forall x : bytes, all_zero (cr_hash cr x) = false) ->
+         (forall x : bytes, bytes_ok (cr_hash cr x) = true) ->
+         (forall k m : bytes, Datatypes.length (cr_sign cr k m) = 64%nat) ->
+         (forall k m : bytes, bytes_ok (cr_sign cr k m) = true) ->
+         OplogFacts.keypair_ok kp = true ->
+         kp_secret kp = Some sk ->
+         forall (c : core) (d : disk) (bs : list bytes) (cl : N -> bool) (j : list sop) 
+           (ev : list event) (block hash : option req_block) (seek : option req_seek)
+           (upgrade : option req_upgrade) (c' : core) (w' : world) (pf : proof) (u : data_upgrade),
+         wreach cr kp c d bs cl ->
+         core_create_proof block hash seek upgrade c {| w_disk := d; w_journal := j; w_events := ev |} =
+         (c', w', Ok (Some pf)) ->
+         p_upgrade pf = Some u ->
+         let n := N.of_nat (Datatypes.length bs) in
+         0 < n /\
+         t_signature (c_tree c) = Some (du_signature u) /\
+         du_signature u = cr_sign cr sk (signable (tree_hash cr (ref_roots cr bs n)) n 0) /\
+         (exists ru : req_upgrade, upgrade = Some ru /\ du_start u = ru_start ru /\ du_length u = ru_length ru) /\
+         0 < du_length u /\
+         du_start u + du_length u <= n /\
+         (forall pk : bytes,
+          (forall m : bytes, cr_verify cr pk m (cr_sign cr sk m) = true) ->
+          du_start u + du_length u = n ->
+          cr_verify cr pk
+            (signable (tree_hash cr (ref_roots cr bs (du_start u + du_length u))) (du_start u + du_length u)
+               (p_fork pf)) (du_signature u) = true).
+Proof. exact C05_served_upgrade_is_signed. Qed.
+
+Theorem C05_stored_signature_is_the_heads :
+  forall (cr : crypto) (kp : keypair) (sk : bytes),
+         OplogFacts.crc_ok cr ->
+         (forall x : bytes, Datatypes.length (cr_hash cr x) = 32%nat) ->
+         (forall x : bytes, all_zero (cr_hash cr x) = false) ->
+         (forall x : bytes, bytes_ok (cr_hash cr x) = true) ->
+         (forall k m : bytes, Datatypes.length (cr_sign cr k m) = 64%nat) ->
+         (forall k m : bytes, bytes_ok (cr_sign cr k m) = true) ->
+         OplogFacts.keypair_ok kp = true ->
+         kp_secret kp = Some sk ->
+         forall (c : core) (d : disk) (bs : list bytes) (cl : N -> bool),
+         wreach cr kp c d bs cl ->
+         let n := N.of_nat (Datatypes.length bs) in
+         let sig := fun m : N => cr_sign cr sk (signable (tree_hash cr (ref_roots cr bs m)) m 0) in
+         0 < n ->
+         t_signature (c_tree c) = Some (sig n) /\
+         ht_length (hd_tree (c_header c)) = n /\
+         ht_signature (hd_tree (c_header c)) = sig n /\
+         ht_root_hash (hd_tree (c_header c)) = tree_hash cr (ref_roots cr bs n) /\
+         (exists oo : open_outcome,
+            oplog_open cr None (f_content (d_oplog d)) = Ok oo /\
+            (0 < ht_length (hd_tree (oo_header oo)) ->
+             ht_signature (hd_tree (oo_header oo)) = sig (ht_length (hd_tree (oo_header oo))) /\
+             ht_root_hash (hd_tree (oo_header oo)) =
+             tree_hash cr (ref_roots cr bs (ht_length (hd_tree (oo_header oo))))) /\
+            (forall (e : entry) (u : tree_upgrade),
+             In e (oo_entries oo) ->
+             e_upgrade e = Some u -> tu_signature u = sig (tu_length u) /\ tu_length u <= n)).
+Proof. exact C05_stored_signature. Qed.
+
+Theorem C05_whole_log_upgrade_verifies :
+  forall (cr : crypto) (kp : keypair) (sk : bytes),
+         OplogFacts.crc_ok cr ->
+         (forall x : bytes, Datatypes.length (cr_hash cr x) = 32%nat) ->
+         (forall x : bytes, all_zero (cr_hash cr x) = false) ->
+         (forall x : bytes, bytes_ok (cr_hash cr x) = true) ->
+         (forall k m : bytes, Datatypes.length (cr_sign cr k m) = 64%nat) ->
+         (forall k m : bytes, bytes_ok (cr_sign cr k m) = true) ->
+         OplogFacts.keypair_ok kp = true ->
+         kp_secret kp = Some sk ->
+         forall (c : core) (d : disk) (bs : list bytes) (cl : N -> bool) (j : list sop) 
+           (ev : list event) (c' : core) (w' : world) (pf : proof) (rt : mtree) (rtf : file) 
+           (pk : bytes),
+         wreach cr kp c d bs cl ->
+         let n := N.of_nat (Datatypes.length bs) in
+         core_create_proof None None None (Some {| ru_start := 0; ru_length := n |}) c
+           {| w_disk := d; w_journal := j; w_events := ev |} = (c', w', Ok (Some pf)) ->
+         (forall m : bytes, cr_verify cr pk m (cr_sign cr sk m) = true) ->
+         t_roots rt = [] ->
+         t_length rt = 0 ->
+         t_byte_length rt + sumN (map len bs) <= u64_max ->
+         let sg := cr_sign cr sk (signable (tree_hash cr (ref_roots cr bs n)) n 0) in
+         pf =
+         {|
+           p_fork := 0;
+           p_block := None;
+           p_hash := None;
+           p_seek := None;
+           p_upgrade :=
+             Some
+               {|
+                 du_start := 0;
+                 du_length := n;
+                 du_nodes := ref_roots cr bs n;
+                 du_additional := [];
+                 du_signature := sg
+               |}
+         |} /\
+         (exists cs : changeset,
+            verify_proof cr rt rtf pf pk = Ok cs /\
+            cs_roots cs = ref_roots cr bs n /\
+            cs_length cs = n /\
+            cs_fork cs = 0 /\
+            cs_byte_length cs = t_byte_length rt + sumN (map len bs) /\
+            cs_signature cs = Some sg /\
+            cs_hash cs = Some (tree_hash cr (ref_roots cr bs n)) /\
+            cs_nodes cs = ref_roots cr bs n /\ commitable rt cs = true).
+Proof. exact C05_whole_log_upgrade_verifies. Qed.
+
+Theorem C05_signature_invariant_reached :
+  forall (cr : crypto) (kp : keypair) (sk : bytes),
+         OplogFacts.crc_ok cr ->
+         (forall x : bytes, Datatypes.length (cr_hash cr x) = 32%nat) ->
+         (forall x : bytes, all_zero (cr_hash cr x) = false) ->
+         (forall x : bytes, bytes_ok (cr_hash cr x) = true) ->
+         (forall k m : bytes, Datatypes.length (cr_sign cr k m) = 64%nat) ->
+         (forall k m : bytes, bytes_ok (cr_sign cr k m) = true) ->
+         OplogFacts.keypair_ok kp = true ->
+         kp_secret kp = Some sk ->
+         forall (c : core) (d : disk) (bs : list bytes) (cl : N -> bool),
+         wreach cr kp c d bs cl -> FInv cr c d bs cl /\ PInv cr sk c d bs.
+Proof. exact wreach_inv. Qed.
+
 Print Assumptions C05_batch_is_reference.
 Print Assumptions C05_from_empty.
 Print Assumptions C05_signature_over_reference.
@@ -120,3 +275,13 @@ Print Assumptions C05_no_overflow_panic.
 Print Assumptions C05_flat_index_decomposition.
 Print Assumptions C05_source_constants.
 Print Assumptions C05_tree_is_reference_in_every_state.
+Print Assumptions C05_served_proof_is_the_reference_tree.
+Print Assumptions C05_served_upgrade_is_signed.
+Print Assumptions C05_stored_signature_is_the_heads.
+Print Assumptions C05_whole_log_upgrade_verifies.
+Print Assumptions C05_signature_invariant_reached.
+Print Assumptions ProofContent.toy_state_reached.
+Print Assumptions ProofContent.toy_served_block_and_upgrade.
+Print Assumptions ProofContent.ex_signature_clauses_hold.
+Print Assumptions ProofContent.stale_header_signature_detected.
+Print Assumptions ProofContent.always_none_refuted.
